@@ -38,6 +38,13 @@ Definition reg_SetRecord (w : rworld) (id : Z) (b : go_WrkChainBlock) : outcome 
                          rc_hashes := [WrkChainBlock_Blockhash b; WrkChainBlock_Parenthash b; WrkChainBlock_Hash1 b;
                                        WrkChainBlock_Hash2 b; WrkChainBlock_Hash3 b];
                          rc_time := WrkChainBlock_SubTime b |}.
+(* GetWrkChainBlock: the stored record under (id, height), or the zero struct and false *)
+Definition reg_GetRecord (w : rworld) (id height : Z) : go_WrkChainBlock * bool :=
+  match aget (id, height) (r_recs (rw_reg w)) with
+  | Some rc => (mk_go_WrkChainBlock (rc_key rc) (nth 0 (rc_hashes rc) EmptyString) (nth 1 (rc_hashes rc) EmptyString)
+                  (nth 2 (rc_hashes rc) EmptyString) (nth 3 (rc_hashes rc) EmptyString) (nth 4 (rc_hashes rc) EmptyString) (rc_time rc), true)
+  | None => (zero_go_WrkChainBlock, false)
+  end.
 Definition params_of_go (p : go_Params) : reg_params :=
   {| rp_fee_register := Params_FeeRegister p; rp_fee_record := Params_FeeRecord p; rp_fee_purchase := Params_FeePurchaseStorage p;
      rp_denom := Params_Denom p; rp_default_limit := Params_DefaultStorageLimit p; rp_max_limit := Params_MaxStorageLimit p |}.
